@@ -115,6 +115,10 @@ impl<'a> Parser<'a> {
     pub fn parse(mut self) -> Result<Program, ParseError<'a>> {
         let mut blocks = Vec::new();
         while self.current().is_some() {
+            if self.current_matches(TokenType::Else) {
+                // an `else` without an open `if`; parse_block would never consume it
+                return Err(self.new_parse_error(ParseErrorCode::UnexpectedToken));
+            }
             if let Some(block) = Some(self.parse_block()?).filter(|b| !b.is_empty()) {
                 blocks.push(block);
             }
